@@ -23,17 +23,17 @@ inductive SortKey where
   | str (b : Bytes)
 deriving DecidableEq, Repr
 
-def natDigits (n : Nat) : Bytes := (toString n).toUTF8.toList
+def natDigits (n : Nat) : Bytes := (Nat.toDigits 10 n).map (fun c => UInt8.ofNat c.toNat)
 
-/-- `dns.op_codes.to_str` -/
+/-- `dns.op_codes.to_str` (ASCII codes of QUERY, IQUERY, STATUS, NOTIFY, UPDATE, DSO, `OPCODE(n)`) -/
 def opcodeStr (c : Nat) : Bytes :=
-  if c = 0 then "QUERY".toUTF8.toList
-  else if c = 1 then "IQUERY".toUTF8.toList
-  else if c = 2 then "STATUS".toUTF8.toList
-  else if c = 4 then "NOTIFY".toUTF8.toList
-  else if c = 5 then "UPDATE".toUTF8.toList
-  else if c = 6 then "DSO".toUTF8.toList
-  else "OPCODE(".toUTF8.toList ++ natDigits c ++ ")".toUTF8.toList
+  if c = 0 then [81, 85, 69, 82, 89]
+  else if c = 1 then [73, 81, 85, 69, 82, 89]
+  else if c = 2 then [83, 84, 65, 84, 85, 83]
+  else if c = 4 then [78, 79, 84, 73, 70, 89]
+  else if c = 5 then [85, 80, 68, 65, 84, 69]
+  else if c = 6 then [68, 83, 79]
+  else [79, 80, 67, 79, 68, 69, 40] ++ natDigits c ++ [41]
 
 def FlowData.ts : FlowData → Nat
   | .http ts .. => ts
@@ -46,7 +46,7 @@ def genKey (slot : Nat) (d : FlowData) : SortKey :=
   else if slot = 2 then
     match d with
     | .http _ m _ _ _ => .str m
-    | .stream _ isTcp _ _ => .str (if isTcp then "TCP".toUTF8.toList else "UDP".toUTF8.toList)   -- f.type.upper()
+    | .stream _ isTcp _ _ => .str (if isTcp then [84, 67, 80] else [85, 68, 80])   -- f.type.upper()
     | .dns _ c _ _ => .str (opcodeStr c)
   else if slot = 3 then
     match d with
